@@ -28,8 +28,16 @@ META = {
     "impact sign, same-side/crossover, capped?, virtual inventory used?, pool balance class, impact-pool class, "
     "amount class, config class) for v2.",
     "assumptions": [
-        "v1 amounts: |observed - Vault rule| <= 1 bp of the amount + 2 wei of the output + the value of 2 wei of the "
-        "input token (the fee may differ from the rule by up to 1 bp; the code works on un-floored token amounts)",
+        "v1 amounts: |observed - Vault rule| <= 1 bp of the fee-less (gross) amount + 2 wei of the output + the value "
+        "of 2 wei of the input token: the statement lets the fee differ from the rule by up to 1 bp, and a fee off by "
+        "1 bp moves the amount by 1 bp of the gross amount (1.0086 bp of the net amount at the 85 bp fee); the code "
+        "works on un-floored token amounts (demeter returns 84 bp where the rule caps at 85: int(60 * t / t) in "
+        "Decimal prec 35 is 59)",
+        "v1 fee rule: the Vault rule jumps (by up to 85 bp) where a move stops improving the balance; demeter keeps "
+        "the fraction of a wei of weight * supply / total weights that the contract floors away, so within 1 wei of "
+        "such a jump it may sit on the other side.  The code's fee / amount must agree (to 1 bp) with the rule "
+        "evaluated at some input within 2 wei of the USDG delta and 1 wei of the (non-zero) target "
+        "(oracles.gmx.fee_envelope); everywhere else the envelope is the single rule value",
         "v1 amounts for the fee the code itself reports: never above the exact unrounded formula, and below it by at "
         "most the rounding quanta of the chain (3 wei + 2 USDG wei + 2 token wei, all in output units)",
         "v1 fee is read from the public get_fee_basis_points(token, usdg, increase) at the same bar (a pure function of "
@@ -39,8 +47,16 @@ META = {
         "1-minute bars",
         "v1 pool state = the bar's row, unchanged by the user's own trades (demeter replays history)",
         "all listed tokens of the pool are registered on the market (total weight = sum over registered tokens)",
-        "v2: tolerance 1e-9 relative plus 256 ulp of the two impact terms whose difference is the price impact "
-        "(float cancellation when a deposit is tiny against the pool imbalance)",
+        "v2: tolerance 1e-9 relative plus the oracle's bound on what a binary64 evaluation of the impact formula may "
+        "be off by (pool values rounded to 2^-52 relative, then squared and subtracted: cancellation when a deposit is "
+        "tiny against the pool imbalance), carried through to the minted amount at supply / poolValue",
+        "v2: when the real-pool impact is smaller than that bound binary64 cannot resolve its sign (which selects the "
+        "fee factor and whether the virtual inventory is consulted): the code's reported impact must be within the "
+        "bound of the real-pool impact or of the worse of real and virtual, and fees / minted amount are then demanded "
+        "exactly for the impact the code reported",
+        "v2: deposits whose negative price impact exceeds what is left of a deposited side after fees are not issued "
+        "(the contract reverts them in unsigned arithmetic; the statement says nothing about them; demeter mints a "
+        "negative GM amount)",
         "v2: each deposited side's positive impact is capped separately by the bar's single impactPoolAmount "
         "(demeter has one impact-pool column)",
         "v2 fee / impact factors are the ones configured on market.pool_config (defaults or harness-set values); the "
@@ -57,7 +73,7 @@ KNOWN_SITE = "positive-price-impact>fees"
 
 
 def plan(tier, seed):
-    n = 26 if tier == "quick" else 2600
+    n = 78 if tier == "quick" else 7020
     return [{"shard": i, "cases": n} for i in range(NSHARDS)]
 
 
@@ -274,6 +290,7 @@ def v1_buy(ctx, tok, token_wei, tag=""):
     amount = Decimal(token_wei) / Decimal(10**tok.decimal)
     exp = G.add_liquidity(st, token_wei)
     path = G.fee_path(st.usdg_amount, exp["usdg"], st.target, True)
+    rule_fees = G.fee_envelope(st.usdg_amount, exp["usdg"], st.target, True) | {exp["fee_bps"]}
     wb = ctx.wallet()
     held_before = F(m.glp_amount)
     n_act = len(ctx.fz.actions)
@@ -295,17 +312,18 @@ def v1_buy(ctx, tok, token_wei, tag=""):
         if not (0 <= fc <= G.MAX_FEE_BPS):
             mon.violation("gmx", "buy_glp", "fee-range", path, f"{ctx.label}: fee {float(fc)} bp outside [0, 85]; {info}", info)
         mon.ev()
-        if abs(fc - exp["fee_bps"]) > 1:
+        if min(abs(fc - f) for f in rule_fees) > 1:
             mon.violation("gmx", "buy_glp", "fee-rule", path,
-                          f"{ctx.label}: code fee {float(fc):.4f} bp, Vault rule {exp['fee_bps']} bp ({dcls}); {info}", info)
-    # --- amount against the Vault rule (fee included)
+                          f"{ctx.label}: code fee {float(fc):.4f} bp, Vault rule {exp['fee_bps']} bp "
+                          f"(rule within 2 wei of the inputs: {sorted(rule_fees)}) ({dcls}); {info}", info)
+    # --- amount against the Vault rule (fee included): a fee off by 1 bp moves the amount by 1 bp of the fee-less amount
+    gross = G.add_liquidity_exact(st, token_wei, 0)
     quantum = 2 + 2 * G.token_wei_in_glp_wei(st)
     mon.ev()
-    if abs(got_wei - exp["glp_wei"]) > BP * exp["glp_wei"] + quantum:
+    if all(abs(got_wei - G.add_liquidity(st, token_wei, f)["glp_wei"]) > BP * gross + quantum for f in rule_fees):
         mon.violation("gmx", "buy_glp", "mint-amount", "vs-vault-rule/" + ("dec18" if tok.decimal == 18 else "dec!=18"),
                       f"{ctx.label}: minted {_fl(got_wei)} GLP wei, rule {exp['glp_wei']}; {info}", info)
     # --- implied fee range: never more than the fee-less mint, never less than the 85 bp mint
-    gross = G.add_liquidity_exact(st, token_wei, 0)
     mon.ev()
     if got_wei > gross * (1 + Fraction(1, 10**30)) or got_wei < gross * (1 - G.MAX_FEE_BPS * BP) - quantum - 2 * F(st.glp_supply) / st.aum_in_usdg - 3:
         mon.violation("gmx", "buy_glp", "fee-range", "implied-by-amount",
@@ -359,6 +377,7 @@ def v1_sell(ctx, tok, glp_wei, all_=False, tag=""):
     glp_int = int(glp_wei_f)  # holdings are whole wei (mints are floored to wei)
     exp = G.remove_liquidity(st, glp_int)
     path = G.fee_path(st.usdg_amount, exp["usdg"], st.target, False)
+    rule_fees = G.fee_envelope(st.usdg_amount, exp["usdg"], st.target, False) | {exp["fee_bps"]}
     wb = ctx.wallet()
     n_act = len(ctx.fz.actions)
     res = Dr.call_op(m.sell_glp, tok, arg)
@@ -378,15 +397,16 @@ def v1_sell(ctx, tok, glp_wei, all_=False, tag=""):
         if not (0 <= fc <= G.MAX_FEE_BPS):
             mon.violation("gmx", "sell_glp", "fee-range", path, f"{ctx.label}: fee {float(fc)} bp outside [0, 85]; {info}", info)
         mon.ev()
-        if abs(fc - exp["fee_bps"]) > 1:
+        if min(abs(fc - f) for f in rule_fees) > 1:
             mon.violation("gmx", "sell_glp", "fee-rule", path,
-                          f"{ctx.label}: code fee {float(fc):.4f} bp, Vault rule {exp['fee_bps']} bp ({dcls}); {info}", info)
+                          f"{ctx.label}: code fee {float(fc):.4f} bp, Vault rule {exp['fee_bps']} bp "
+                          f"(rule within 2 wei of the inputs: {sorted(rule_fees)}) ({dcls}); {info}", info)
+    gross = G.remove_liquidity_exact(st, glp_int, 0)
     quantum = 2 + 2 * G.usdg_wei_in_token_wei(st)
     mon.ev()
-    if abs(got_wei - exp["token_wei"]) > BP * exp["token_wei"] + quantum:
+    if all(abs(got_wei - G.remove_liquidity(st, glp_int, f)["token_wei"]) > BP * gross + quantum for f in rule_fees):
         mon.violation("gmx", "sell_glp", "redeem-amount", "vs-vault-rule/" + ("dec18" if tok.decimal == 18 else "dec!=18"),
                       f"{ctx.label}: redeemed {_fl(got_wei)} token wei, rule {exp['token_wei']}; {info}", info)
-    gross = G.remove_liquidity_exact(st, glp_int, 0)
     mon.ev()
     if got_wei > gross * (1 + Fraction(1, 10**30)) + Fraction(1, 10**6) or got_wei < gross * (1 - G.MAX_FEE_BPS * BP) - quantum - 3:
         mon.violation("gmx", "sell_glp", "fee-range", "implied-by-amount",
@@ -742,9 +762,10 @@ DEFAULT_CFG = dict(swapImpactExponentFactor=2, swapImpactFactorPositive=2e-10, s
                    withdrawFeeFactorForPositiveImpact=0.0005, withdrawFeeFactorForNegativeImpact=0.0007)
 
 
-def close(got, want, cond=Fraction(0), rel=Fraction(1, 10**9)):
+def close(got, want, slack=Fraction(0), rel=Fraction(1, 10**9)):
+    """|got - want| <= rel * |want| + slack (slack = the oracle's absolute float-evaluation bound, if any)"""
     got, want = F(float(got)), F(want)
-    return abs(got - want) <= rel * abs(want) + cond * Fraction(256, 2**52) + Fraction(1, 10**300)
+    return abs(got - want) <= rel * abs(want) + F(slack) + Fraction(1, 10**300)
 
 
 def bal_class(st):
@@ -781,6 +802,11 @@ def v2_deposit(ctx, la, sa, acls):
     mon, m = ctx.mon, ctx.m
     st, cfg = v2_state(ctx.row), v2_cfg_of(m)
     exp = G.deposit(cfg, st, la, sa)
+    if exp["reverts"]:
+        # the negative price impact exceeds what is left of a deposited side after fees: the contract reverts
+        # (unsigned arithmetic) and the statement says nothing about such a deposit -> outside the domain, not issued
+        mon.cls("v2/dep/not-issued:negative-impact>deposit")
+        return None, exp
     wb = ctx.wallet()
     held_before = F(float(m.amount))
     n_act = len(ctx.fz.actions)
@@ -792,6 +818,18 @@ def v2_deposit(ctx, la, sa, acls):
         return res, exp
     mon.hit("deposit")
     r = res.ret
+    ambiguous = exp["info"]["sign_ambiguous"]
+    if ambiguous:
+        # binary64 cannot resolve the sign of the real-pool impact (it is below the rounding of the pool values): the
+        # implementation may land on either side, which selects the fee factor and the virtual-inventory branch.
+        # Its reported impact must be within the float bound of one of the values the formula allows; fees and the
+        # minted amount are then demanded for that impact.
+        code_imp = F(float(r.price_impact_usd))
+        err0 = exp["err_usd"]
+        imp_ok = any(abs(code_imp - c) <= err0 + abs(c) * Fraction(1, 10**9) for c in exp["info"]["candidates"])
+        if imp_ok:
+            exp = G.deposit(cfg, st, la, sa, impact_override=code_imp)
+            mon.cls("v2/dep/impact-sign-below-float-resolution")
     sign = "pos" if exp["impact_usd"] > 0 else ("neg" if exp["impact_usd"] < 0 else "zero")
     info = {"long": la, "short": sa, "impact_model": _fl(exp["impact_usd"]), "impact_code": _fl(r.price_impact_usd),
             "gm_model": _fl(exp["gm"]), "gm_code": _fl(r.gm_amount), "capped": exp["capped"], "kind": exp["info"]["kind"],
@@ -799,10 +837,10 @@ def v2_deposit(ctx, la, sa, acls):
             "fee_usd_model": _fl(exp["fee_usd"]), "fee_usd_code": _fl(r.fee_usd)}
     site = f"{side}/{sign}/{exp['info']['kind']}" + ("/virtual" if exp["info"]["virtual_used"] else "")
     mon.ev()
-    if not close(r.price_impact_usd, exp["impact_usd"], exp["info"]["magnitude"]):
-        mon.violation("gmx2", "deposit", "price-impact", site, f"{ctx.label}: impact {r.price_impact_usd} vs model {_fl(exp['impact_usd'])}; {info}", info)
+    if not close(r.price_impact_usd, exp["impact_usd"], exp["err_usd"]):
+        mon.violation("gmx2", "deposit", "price-impact", site + ("/sign-below-float-resolution" if ambiguous else ""), f"{ctx.label}: impact {r.price_impact_usd} vs model {_fl(exp['impact_usd'])}; {info}", info)
     mon.ev()
-    if not close(r.gm_amount, exp["gm"], exp["cond_gm"]):
+    if not close(r.gm_amount, exp["gm"], exp["err_gm"]):
         mon.violation("gmx2", "deposit", "mint-amount", site + ("/capped" if exp["capped"] else ""),
                       f"{ctx.label}: minted {r.gm_amount} GM vs model {_fl(exp['gm'])}; {info}", info)
     mon.ev()
@@ -820,7 +858,7 @@ def v2_deposit(ctx, la, sa, acls):
             mon.violation("gmx2", "deposit", "wallet-move", "long" if name == ln else "short",
                           f"{ctx.label}: wallet {name} moved {wa[name] - wb[name]}, expected {_fl(d)}")
     mon.ev()
-    if not close(float(m.amount) - float(held_before), F(float(r.gm_amount)), max(held_before, F(float(r.gm_amount)))):
+    if not close(float(m.amount) - float(held_before), F(float(r.gm_amount)), 4 * G.EPS * max(held_before, F(float(r.gm_amount)))):
         mon.violation("gmx2", "deposit", "holding-move", "", f"{ctx.label}: GM {_fl(held_before)} -> {m.amount}, returned {r.gm_amount}")
     ctx.held = F(float(m.amount))
     new = ctx.fz.actions[n_act:]
@@ -870,7 +908,7 @@ def v2_withdraw(ctx, gm, portion):
             mon.violation("gmx2", "withdraw", "wallet-move", "long" if name == ln else "short",
                           f"{ctx.label}: wallet {name} moved {wa[name] - wb[name]}, expected {_fl(d)}")
     mon.ev()
-    if not close(held_before - float(m.amount), F(amount), F(held_before)):
+    if not close(held_before - float(m.amount), F(amount), 4 * G.EPS * F(held_before)):
         mon.violation("gmx2", "withdraw", "holding-move", "", f"{ctx.label}: GM {held_before} -> {m.amount}, withdrew {amount}")
     mon.ev()
     if float(m.amount) < 0:
@@ -920,7 +958,7 @@ def v2_balance_check(ctx):
         return
     b = r.ret
     mon.ev()
-    if not close(float(b.gm_amount), ctx.held, ctx.held) or float(b.gm_amount) < 0:
+    if not close(float(b.gm_amount), ctx.held) or float(b.gm_amount) < 0:
         mon.violation("gmx2", "get_market_balance", "holding-vs-ledger", "", f"{ctx.label}: GmxV2Balance.gm_amount {b.gm_amount}, holding {_fl(ctx.held)}")
 
 
@@ -980,7 +1018,7 @@ def v2_round_trip(ctx, rng):
     if la <= 0 and sa <= 0:
         return
     rd, ed = v2_deposit(ctx, la, sa, acls)
-    if not rd.ok:
+    if rd is None or not rd.ok:
         return
     rw, ew = v2_withdraw(ctx, None, "all")
     if not rw.ok:
@@ -992,7 +1030,7 @@ def v2_round_trip(ctx, rng):
     mon.ev()
     mon.hit("v2_round_trip")
     profit = got - paid
-    tol = paid * Fraction(1, 10**9) + ed["info"]["magnitude"] * Fraction(256, 2**52)
+    tol = paid * Fraction(1, 10**9) + ed["err_usd"]
     sign = "pos" if ed["impact_usd"] > 0 else ("neg" if ed["impact_usd"] < 0 else "zero")
     if profit > tol:
         explained = ed["impact_usd"] > 0 and ed["positive_gm"] > 0 and st.impact_pool > 0 and model_got > paid
